@@ -393,11 +393,23 @@ func one(k *run.K, t model.Tree, o opts) {
 	// id list
 	ids, has, ierr := geom.UnmarshalTWKBIDList(b)
 	if o.ids && len(o.idList) > 0 {
-		eq := ierr == nil && has && len(ids) == len(o.idList) && len(tw.IDs) == len(o.idList)
-		for i := 0; eq && i < len(ids); i++ {
-			eq = ids[i] == o.idList[i] && tw.IDs[i] == o.idList[i]
+		// A non-empty MultiPoint that drops its empty Points can only keep the IDs of the members that
+		// survive (the format has one ID per written point); everywhere else the list comes back verbatim.
+		want := o.idList
+		if t.Type == geom.TypeMultiPoint && hasEmptyPointInNonEmptyMP(t) {
+			want = nil
+			for i, kid := range t.Kids {
+				if len(kid.Coords) > 0 {
+					want = append(want, o.idList[i])
+				}
+			}
+			k.Count("idlist_with_dropped_empty_points", 1)
 		}
-		k.Check("idlist", eq, "ID list %v came back as %v (present=%v err=%v; independent reader %v)", o.idList, ids, has, ierr, tw.IDs)
+		eq := ierr == nil && has && len(ids) == len(want) && len(tw.IDs) == len(want)
+		for i := 0; eq && i < len(ids); i++ {
+			eq = ids[i] == want[i] && tw.IDs[i] == want[i]
+		}
+		k.Check("idlist", eq, "ID list %v (expected back: %v) came back as %v (present=%v err=%v; independent reader %v)", o.idList, want, ids, has, ierr, tw.IDs)
 	} else {
 		k.Check("idlist", ierr == nil && !has && len(ids) == 0, "no ID list written but reader says present=%v %v err=%v", has, ids, ierr)
 	}
@@ -539,10 +551,15 @@ func drawOpts(r *run.Rng, t model.Tree, q int, variant int) opts {
 	o.size, o.bbox, o.close = variant&1 != 0, variant&2 != 0, variant&8 != 0
 	if variant&4 != 0 {
 		nm, isColl := numMembers(t)
-		if isColl && !hasEmptyPointInNonEmptyMP(t) && t.HasOrdinate() && nm > 0 {
+		if isColl && t.HasOrdinate() && nm > 0 {
 			o.ids = true
+			distinct := t.Type == geom.TypeMultiPoint && hasEmptyPointInNonEmptyMP(t)
 			for i := 0; i < nm; i++ {
-				o.idList = append(o.idList, []int64{0, 1, -1, 127, 128, -129, 1 << 40, -(1 << 62), math.MaxInt64, math.MinInt64}[r.Intn(10)])
+				id := []int64{0, 1, -1, 127, 128, -129, 1 << 40, -(1 << 62), math.MaxInt64, math.MinInt64}[r.Intn(10)]
+				if distinct { // dropped members must be identifiable from what comes back
+					id = int64(i+1)*1000 + int64(r.Intn(1000))
+				}
+				o.idList = append(o.idList, id)
 			}
 		}
 	}
